@@ -41,6 +41,12 @@ def env(b):
             bad = st.copy()
             bad.emit('http_failed', verb=kind)
             yield bad, Raised(Exc('HTTPError'))
+            # the client's response hook turns 401 / expired tokens into AuthRequired (a ReplicatError, not an
+            # httpx error), and reading the payload stream can fail with anything else
+            for other in ('AuthRequired', 'OSError'):
+                bad = st.copy()
+                bad.emit('http_failed', verb=kind)
+                yield bad, Raised(Exc(other))
             code = sym.fresh(INT, 'status')
             errjson_ok = sym.fresh(BOOL, 'error_body_is_json')
             err = st.copy()
@@ -120,7 +126,76 @@ def upload_stream_post(prop):
                 res.oblige(p.pc_at(e), f'{prop}.b2.upload_stream.declared_length_and_name', z3.And(
                     sym.lift(hd['content-length'], STR).z == UF('str_of_int', INT, STR)(res.builder.st.lookup('length').z),
                     sym.lift(hd['x-bz-file-name'], STR).z == UF('urllib_quote', STR, STR)(res.builder.st.lookup('name').z)))
-        res.oblige([], f'{prop}.b2.upload_stream.failure_paths_checked', z3.BoolVal(n >= 2))
+        res.oblige([], f'{prop}.b2.upload_stream.failure_paths_checked', z3.BoolVal(n >= 4))
+    return post
+
+
+def download_stream_setup(b):
+    env(b)
+    HDRS = models.opaque_type('B2Headers')
+    n_chunks = z3.Int('n_body_chunks')
+    b.assume(n_chunks >= 0)
+    HDRS.attrs = {'get': MethodModel('get', lambda i, s, a, k: iter([(s, sym.fresh(Opt(STR), 'content_length_header'))]))}
+
+    def aiter_bytes(interp, st, args, kwargs):
+        yield st, IterSpec(n_chunks, lambda k: SV(BYTES, UF('b2_body_chunk', INT, BYTES)(k)))
+
+    RESP.attrs = {'headers': sym.const(HDRS, 'hdrs'), 'aiter_bytes': MethodModel('aiter_bytes', aiter_bytes)}
+
+    def stream_req(interp, st, args, kwargs):
+        st.emit('stream_request', method=args[0], url=args[1], kwargs=dict(kwargs))
+        for cls in ('HTTPError', 'AuthRequired'):
+            bad = st.copy()
+            bad.emit('request_failed')
+            yield bad, Raised(Exc(cls))
+        yield st, CM('streaming', value=sym.fresh(RESP, 'response'))
+
+    b.me._attrs['_client'] = Obj('client', stream=Model('stream', stream_req))
+
+    def truncate(interp, st, args, kwargs):
+        bad = st.copy()
+        bad.emit('stream_truncate_failed')
+        yield bad, Raised(Exc('OSError'))
+        st.emit('stream_truncate', size=args[1] if len(args) > 1 else None)
+        yield st, None
+
+    def write(interp, st, args, kwargs):
+        for cls in ('OSError', 'AuthRequired'):       # the sink fails, or the body iterator does (an expired token mid-body)
+            bad = st.copy()
+            bad.emit('stream_write_failed')
+            yield bad, Raised(Exc(cls))
+        st.emit('stream_write', data=args[1])
+        yield st, None
+
+    STREAM.attrs = dict(STREAM.attrs, truncate=MethodModel('truncate', truncate), write=MethodModel('write', write))
+    b.bind('int', Model('int', lambda i, s, a, k: iter([(s, sym.fresh(INT, 'content_length'))])))
+
+
+def download_stream_post(prop):
+    def post(res):
+        b = res.builder
+        n_exc = 0
+        for p in res.all_paths():
+            evs = p.st.events
+            kinds = [e.kind for e in evs]
+            sig = ','.join(k for k in kinds if not k.startswith('loop')) + '->' + p.kind + (':' + p.value.cls if p.kind == 'raise' else '')
+            if p.kind == 'raise' and any(k in ('stream_truncate', 'stream_truncate_failed') for k in kinds):
+                n_exc += 1
+                lk = [e for e in evs if e.kind.startswith('stream_') and e.kind != 'stream_request']
+                # whatever fails once the sink has been touched (sink error, body error, expired token): back to offset 0
+                res.oblige(p, f'{prop}.b2.download_stream.rewinds_on_failure[{sig}]', z3.BoolVal(
+                    lk[-1].kind == 'stream_seek') if lk[-1].kind != 'stream_seek' else sym.lift(lk[-1].data['pos'], INT).z == 0)
+            if p.events('stream_write'):
+                res.oblige(p, f'{prop}.b2.download_stream.truncate_before_write[{sig}]', z3.BoolVal(
+                    'stream_truncate' in kinds and kinds.index('stream_truncate') < kinds.index('stream_write')))
+            for e in p.events('stream_request'):
+                hd = res.interp.deref(p.st, ops.resolve(p.st, e.data['kwargs']['headers']))
+                me = b.me
+                res.oblige(p.pc_at(e), f'{prop}.b2.download_stream.authorised_get_of_the_named_file', z3.And(
+                    sym.lift(e.data['method'], STR).z == S('GET'),
+                    sym.lift(e.data['url'], STR).z == z3.Concat(me.get('_auth').get('downloadUrl').z, S('/file/'), z3.String('bucket_name'), S('/'), b.st.lookup('name').z),
+                    sym.lift(hd['authorization'], STR).z == me.get('_auth').get('authorizationToken').z))
+        res.oblige([], f'{prop}.b2.download_stream.failure_paths_checked', z3.BoolVal(n_exc >= 3))
     return post
 
 
@@ -194,6 +269,8 @@ def units(prop):
     return [
         Unit(f'{prop}.b2.delete', B2_PY, 'B2.delete', env, delete_post(prop), prop=prop),
         Unit(f'{prop}.b2.upload_stream', B2_PY, 'B2.upload_stream', env, upload_stream_post(prop), prop=prop),
+        Unit(f'{prop}.b2.download_stream', B2_PY, 'B2.download_stream', download_stream_setup, download_stream_post(prop),
+             loops={'AsyncFor#1': LoopSpec(t, modifies=[], name='AsyncFor#1')}, prop=prop),
         Unit(f'{prop}.b2.list_files', B2_PY, 'B2.list_files', list_files_setup, list_files_post(prop),
              loops={'While#1': LoopSpec(t, modifies=['start_file_name'], name='While#1', types={'start_file_name': Opt(STR)}),
                     'For#1': LoopSpec(t, modifies=[], name='For#1')},
